@@ -80,42 +80,52 @@ def _pyval(t):
 
 
 def rows(max_rows=6, min_rows=0):
-    """rows for the fixed table: [i1, i2, f1, s1, s2, b1, b2] with NULLs"""
+    """rows for the fixed table: [i1, i2, f1, s1, s2, b1, b2].  The first row never holds NULL (NULL
+    absorbs most operators, so an all-nullable table would mask differences); the others hold NULL in
+    about one cell out of five."""
+
+    def dense(t):
+        return _pyval(t)
 
     def cell(t):
-        return st.one_of(st.none(), _pyval(t)) if t != "b" else st.sampled_from([None, True, False])
+        return st.integers(0, 4).flatmap(lambda k, t=t: st.none() if k == 0 else _pyval(t))
 
-    return st.lists(st.tuples(*[cell(COL_TYPE[c]) for c in COL_ORDER]).map(list), min_size=min_rows, max_size=max_rows)
+    first = st.tuples(*[dense(COL_TYPE[c]) for c in COL_ORDER]).map(list)
+    rest = st.lists(st.tuples(*[cell(COL_TYPE[c]) for c in COL_ORDER]).map(list), min_size=max(min_rows - 1, 0), max_size=max(max_rows - 1, 0))
+    return st.tuples(first, rest).map(lambda fr: [fr[0]] + fr[1])
 
 
 @st.composite
-def _leaf(draw, t):
-    k = draw(st.integers(0, 9))
-    if k <= 4:
+def _leaf(draw, t, prof=None):
+    prof = prof or {}
+    if t == "b" and not prof.get("bool_values", True):
+        # backends without a boolean value type: the smallest boolean is a predicate over non-boolean atoms
+        tt = draw(st.sampled_from(["i", "s", "f"]))
+        if draw(st.integers(0, 3)) == 0:
+            return ["isn", "b", draw(_leaf(tt, prof)), draw(st.booleans())]
+        return ["cmp", "b", draw(st.sampled_from(CMPS[:6])), draw(_leaf(tt, prof)), draw(_leaf(tt, prof))]
+    k = draw(st.integers(0, 19))
+    if k == 18 and t == "b" and not prof.get("consts", True):
+        k = 0
+    if k <= 10:
         return ["col", t, draw(st.sampled_from(COLS[t]))]
-    if k <= 7:
+    if k <= 17:
         return ["lit", t, draw(_pyval(t))]
-    if k == 8 and t == "b":
+    if k == 18 and t == "b":
         return ["const", "b", draw(st.booleans())]
+    if k == 18:
+        return ["lit", t, draw(_pyval(t))]
     return ["null", t]
 
 
 @st.composite
 def _num(draw, t, d, prof, force=False):
     if d <= 0 or (not force and draw(st.integers(0, 9)) < 2):
-        return draw(_leaf(t))
+        return draw(_leaf(t, prof))
     k = draw(st.integers(0, 19))
     sub = lambda tt: draw(_tree(tt, d - 1, prof))  # noqa: E731
     if k <= 8:
-        op = draw(st.sampled_from(ARITH))
-        if t == "i":
-            if op == "truediv":
-                op = draw(st.sampled_from(["add", "sub", "mul", "floordiv", "mod"]))
-            return ["ar", "i", op, sub("i"), sub("i")]
-        lt, rt = draw(st.sampled_from([("f", "f"), ("i", "f"), ("f", "i"), ("i", "i")]))
-        if (lt, rt) == ("i", "i") and op != "truediv":
-            lt = "f"
-        return ["ar", "f", op, sub(lt), sub(rt)]
+        return draw(_ar(t, d, prof))
     if k <= 10:
         return ["neg", t, sub(t)]
     if k == 11:
@@ -135,7 +145,7 @@ def _num(draw, t, d, prof, force=False):
     if k == 13:
         return draw(_case(t, d, prof))
     if k == 14:
-        src = draw(st.sampled_from(["f", "b", "s"] if t == "i" else ["i"]))
+        src = draw(st.sampled_from((["f", "b", "s"] if prof.get("bool_values", True) else ["f", "s"]) if t == "i" else ["i"]))
         return ["cast", t, sub(src)]
     if k == 15:
         return ["ssq", t, sub(t)]
@@ -149,9 +159,30 @@ def _num(draw, t, d, prof, force=False):
 
 
 @st.composite
+def _ar(draw, t, d, prof):
+    """arithmetic node; one operand in three is itself forced to be arithmetic (nesting of equal /
+    different precedence classes on either side is what grouping decisions are about)"""
+    op = draw(st.sampled_from(ARITH))
+
+    def operand(tt):
+        if d - 1 >= 1 and draw(st.integers(0, 2)) == 0:
+            return draw(_ar(tt, d - 1, prof))
+        return draw(_tree(tt, d - 1, prof))
+
+    if t == "i":
+        if op == "truediv":
+            op = draw(st.sampled_from(["add", "sub", "mul", "floordiv", "mod"]))
+        return ["ar", "i", op, operand("i"), operand("i")]
+    lt, rt = draw(st.sampled_from([("f", "f"), ("i", "f"), ("f", "i"), ("i", "i")]))
+    if (lt, rt) == ("i", "i") and op != "truediv":
+        lt = "f"
+    return ["ar", "f", op, operand(lt), operand(rt)]
+
+
+@st.composite
 def _str(draw, d, prof, force=False):
     if d <= 0 or (not force and draw(st.integers(0, 9)) < 3):
-        return draw(_leaf("s"))
+        return draw(_leaf("s", prof))
     k = draw(st.integers(0, 11))
     sub = lambda tt: draw(_tree(tt, d - 1, prof))  # noqa: E731
     if k <= 4:
@@ -166,7 +197,7 @@ def _str(draw, d, prof, force=False):
         return ["fn", "s", "coalesce", [sub("s"), sub("s")]]
     if k == 9:
         return ["ssq", "s", sub("s")]
-    if k == 10:
+    if k == 10 and prof.get("collate", True):
         return ["coll", "s", sub("s"), draw(st.sampled_from(["NOCASE", "BINARY", "RTRIM"]))]
     return draw(_scase("s", d, prof))
 
@@ -181,7 +212,7 @@ def _case(draw, t, d, prof):
 
 @st.composite
 def _scase(draw, t, d, prof):
-    vt = draw(st.sampled_from(["i", "s", "b"]))
+    vt = draw(st.sampled_from(["i", "s", "b"] if prof.get("bool_values", True) else ["i", "s"]))
     x = draw(_tree(vt, d - 1, prof))
     n = draw(st.integers(1, 2))
     seen, whens = set(), []
@@ -198,36 +229,53 @@ def _scase(draw, t, d, prof):
 @st.composite
 def _bool(draw, d, prof, force=False):
     if d <= 0 or (not force and draw(st.integers(0, 19)) < 3):
-        return draw(_leaf("b"))
+        return draw(_leaf("b", prof))
     k = draw(st.integers(0, 29))
+    if prof.get("_rewritable"):
+        prof = {kk: v for kk, v in prof.items() if kk != "_rewritable"}
+        k = draw(st.sampled_from([0, 1, 2, 3, 16, 18, 20, 22, 24]))
     sub = lambda tt: draw(_tree(tt, d - 1, prof))  # noqa: E731
+    bv = prof.get("bool_values", True)
+    if not bv and k in (25, 27, 29):
+        k = 0
     if k <= 6:
         op = draw(st.sampled_from(CMPS))
-        tt = draw(st.sampled_from(["i", "i", "f", "s", "b", "n"]))
+        tt = draw(st.sampled_from(["i", "i", "f", "s", "b" if bv else "s", "n"]))
         if tt == "n":
             lt, rt = draw(st.sampled_from([("i", "f"), ("f", "i")]))
         else:
             lt = rt = tt
-        return ["cmp", "b", op, sub(lt), sub(rt)]
+        left = sub(lt)
+        # equal operands one time in four: boundary of < vs <=, = vs !=
+        right = left if (lt == rt and draw(st.integers(0, 3)) == 0) else sub(rt)
+        return ["cmp", "b", op, left, right]
     if k <= 10:
         n = draw(st.integers(2, 3))
-        return [draw(st.sampled_from(["and", "or"])), "b", [sub("b") for _ in range(n)]]
+        kind = draw(st.sampled_from(["and", "or"]))
+        xs = [sub("b") for _ in range(n)]
+        if d - 1 >= 1 and draw(st.booleans()):
+            other = "or" if kind == "and" else "and"
+            xs[draw(st.integers(0, n - 1))] = [other, "b", [sub("b"), sub("b")]]
+        return [kind, "b", xs]
     if k <= 15:
+        if d - 1 >= 1 and draw(st.booleans()):
+            # NOT directly over something the expression language rewrites instead of wrapping
+            return ["not", "b", draw(_bool(d - 1, dict(prof, _rewritable=True), True))]
         return ["not", "b", sub("b")]
     if k <= 17:
-        return ["isn", "b", sub(draw(st.sampled_from(TYPES))), draw(st.booleans())]
+        return ["isn", "b", sub(draw(st.sampled_from(TYPES if bv else TYPES[:3]))), draw(st.booleans())]
     if k <= 19:
-        tt = draw(st.sampled_from(["i", "f", "s", "i", "b"]))
+        tt = draw(st.sampled_from(["i", "f", "s", "i", "b" if bv else "i"]))
         return ["btw", "b", sub(tt), sub(tt), sub(tt)]
     if k <= 21:
         esc = draw(st.sampled_from([None, None, "/", "a", "%"]))
         return ["like", "b", draw(st.sampled_from(LIKES)), sub("s"), sub("s"), esc]
     if k <= 23:
-        tt = draw(st.sampled_from(["i", "s", "b"]))
+        tt = draw(st.sampled_from(["i", "s", "b" if bv else "i"]))
         vals = draw(st.lists(_pyval(tt), min_size=0 if prof.get("empty_in", True) else 1, max_size=3))
         return ["in", "b", sub(tt), vals, draw(st.booleans())]
     if k == 24:
-        tt = draw(st.sampled_from(["i", "s", "b"]))
+        tt = draw(st.sampled_from(["i", "s", "b" if bv else "s"]))
         n = draw(st.integers(1, 3))
         return ["inx", "b", sub(tt), [sub(tt) for _ in range(n)], draw(st.booleans())]
     if k == 25:
@@ -244,10 +292,10 @@ def _bool(draw, d, prof, force=False):
             return ["cmp", "b", "eq", ["cast", "i", sub("b")], sub("i")]
         return draw(_scase("b", d, prof))
     if k == 28 and prof.get("is_expr", True):
-        tt = draw(st.sampled_from(["i", "b", "s"]))
+        tt = draw(st.sampled_from(["i", "b" if bv else "i", "s"]))
         return ["is", "b", sub(tt), sub(tt), draw(st.booleans())]
     op = draw(st.sampled_from(CMPS))
-    return ["cmp", "b", op, sub("b"), sub("b")]
+    return ["cmp", "b", op, sub("b" if bv else "i"), sub("b" if bv else "i")]
 
 
 def _tree(t, d, prof, force=False):
